@@ -291,7 +291,10 @@ const TABLES: [&str; 3] = [
 ];
 
 /// (model, invocable, input context template; `$X` is replaced by the input variant of the operation)
-const MODEL_CALLS: [(&str, &str, &str); 26] = [
+const MODEL_CALLS: [(&str, &str, &str); 28] = [
+  // UNIQUE and ANY tables whose rules overlap for some inputs (null there, a value elsewhere)
+  ("gen", "tu2", "{x: $X, s: \"u$X\"}"),
+  ("gen", "tany2", "{x: $X, s: \"y$X\"}"),
   ("gen", "tp2", "{x: $X, s: \"p$X\"}"),
   ("gen", "to2", "{x: $X, s: \"o$X\"}"),
   ("gen", "tp", "{x: $X, s: \"p$X\"}"),
